@@ -9,7 +9,7 @@ mut() {
   exp=$(grep -s "^$(basename $m .patch) " selftest/expect.txt | cut -d' ' -f2-)
   [ -n "$exp" ] && ids="$exp" || ids="$id"
   out=$(tools/mutant.sh "$m" $ids 2>&1)
-  if echo "$out" | grep -q "CAUGHT"; then echo "ok   $(basename $m) caught by $(echo "$out" | grep CAUGHT | sed 's/CAUGHT by //;s/://' | tr '\n' ' ')"; else echo "MISS $(basename $m): $(echo "$out" | head -2 | tr '\n' ' ')"; fi
+  if echo "$out" | grep -q "CAUGHT"; then echo "ok   $(basename $m) caught by $(echo "$out" | grep CAUGHT | sed 's/CAUGHT by //;s/://' | tr '\n' ' ') :: $(echo "$out" | grep -m1 -E '^  C[0-9]+\.[0-9]+' | sed -E 's/^  (C[0-9]+\.[0-9]+) \[[a-z]+\] ([^@]*)@.*/\1 — \2/' | cut -c1-160)"; else echo "MISS $(basename $m): $(echo "$out" | head -2 | tr '\n' ' ')"; fi
 }
 ben() {
   b=$1
